@@ -82,6 +82,11 @@ fn main() {
                 "ord" => obj::drive_ord(&args, thorough),
                 "hist" => hist::drive_hist(&args, thorough),
                 "ctor" => hist::drive_ctor(&args, thorough),
+                "optable" => {
+                    // the operation table of the object slot machine (compared with GenObj.tla Ops)
+                    let v: Vec<String> = hist::OPS.iter().map(|(o, s, d)| format!("[\"{}\",\"{}\",\"{}\"]", o, s, d)).collect();
+                    println!("[{}]", v.join(","));
+                }
                 x => {
                     eprintln!("unknown obj mode {}", x);
                     std::process::exit(2);
